@@ -852,10 +852,13 @@ func (x *Exec) verifyPrefix(st *State, fd *ast.FuncDecl, name string) {
 				break
 			}
 			for _, o := range outs {
-				if o.kind == oNormal {
+				switch o.kind {
+				case oNormal:
 					next = append(next, o.st)
+				case oReturn:
+					// a return before the cut point: the postconditions describe when that is allowed
+					x.checkReturn(o.st)
 				}
-				// returns and panics before the cut point are not the subject of a prefix contract
 			}
 		}
 		if stop {
